@@ -57,11 +57,11 @@ def xarr(rs, container, off):
     return a + (int(off) if a.dtype.kind in "iu" else off)          # ndarray and Series alike
 
 
-def xvec(v, off):
-    if not off:
+def xvec(v, off, scl=1.0):
+    if not off and scl == 1.0:
         return vec(v)
     try:
-        return vec(np.asarray(v, dtype=float) - off)
+        return vec((np.asarray(v, dtype=float) - off) / scl)
     except Exception:
         return [[5, 0, 0]]
 
@@ -255,15 +255,15 @@ def wrun(x, y, f):
     return oc, w, (snap(w) == before)
 
 
-def wfields(w, oc, ref=True, orig=False, off=0.0):
+def wfields(w, oc, ref=True, orig=False, off=0.0, scl=1.0):
     d = {}
     ok = oc == "ok"
     g = guarded(lambda: (w.get(), w.get_reference(), w.get_original()))[1] if ok else None
-    d["wx"], d["wy"] = (xvec(g[0][0], off), vec(g[0][1])) if g else ([], [])
+    d["wx"], d["wy"] = (xvec(g[0][0], off, scl), vec(g[0][1])) if g else ([], [])
     if ref:
-        d["wrx"], d["wry"] = (xvec(g[1][0], off), vec(g[1][1])) if g else ([], [])
+        d["wrx"], d["wry"] = (xvec(g[1][0], off, scl), vec(g[1][1])) if g else ([], [])
     if orig:
-        d["wox"], d["woy"] = (xvec(g[2][0], off), vec(g[2][1])) if g else ([], [])
+        d["wox"], d["woy"] = (xvec(g[2][0], off, scl), vec(g[2][1])) if g else ([], [])
     d["wkind"] = (kind(g[0][0]) if kind(g[0][0]) == kind(g[0][1]) else kind(g[0][0]) + "/" + kind(g[0][1])) if g else "none"
     return d
 
@@ -272,6 +272,10 @@ def wfields(w, oc, ref=True, orig=False, off=0.0):
 def ex_repeat(c):
     off = xoff(c)
     x, y = xarr(c["x"], c.get("container", "array"), off), arr(c["y"], c.get("container", "array"))
+    # optional exact change of the time unit by a power of two (sub-nanosecond scales): repeat commutes with it bit for bit
+    scl = 2.0 ** c["xscl"] if c.get("xscl") else 1.0
+    if scl != 1.0:
+        x = np.asarray(x, dtype=float) * scl
     rr = np.int64(c["r"]) if c.get("r_kind") == "np" else c["r"]
     oc, o = guarded(lambda: proc.repeat(x, y, rr))
     if "x0" in c:       # Weaver-level: the repeat is requested after a history (`pre`) that leads from (x0, y0) to (x, y)
@@ -284,8 +288,8 @@ def ex_repeat(c):
         woc, w, _ = wrun(x, y, lambda w: w.repeat(rr))
     e = {k: v for k, v in c.items() if k not in ("x0", "y0", "pre")}
     e["reshaped"] = "x0" in c
-    e.update(outcome=oc, outx=xvec(o[0], off) if oc == "ok" else [], outy=vec(o[1]) if oc == "ok" else [], w_outcome=woc)
-    e.update(wfields(w, woc, off=off))
+    e.update(outcome=oc, outx=xvec(o[0], off, scl) if oc == "ok" else [], outy=vec(o[1]) if oc == "ok" else [], w_outcome=woc)
+    e.update(wfields(w, woc, off=off, scl=scl))
     return e
 
 
